@@ -214,7 +214,7 @@ fn handle(db: &anything::Db, line: &str) -> Value {
                 let Some(h) = args.get(1) else { return json!({"bad": 1}) };
                 let bytes: Vec<u8> = (0..h.len() / 2).filter_map(|i| u8::from_str_radix(&h[2 * i..2 * i + 2], 16).ok()).collect();
                 match serde_cbor::from_slice::<Compound>(&bytes) {
-                    Ok(c) => json!({ "names": names(&c) }),
+                    Ok(c) => json!({ "names": names(&c), "text": c.to_string() }),
                     Err(e) => json!({ "err": e.to_string() }),
                 }
             }
